@@ -435,6 +435,8 @@ func orderTrace(m *meta.Module, out map[string][]string) {
 		var ids []string
 		for _, d := range defs {
 			ids = append(ids, d.Ident())
+			out["seen:"+d.Ident()] = nil
+			listFacts(d, out)
 		}
 		out[path] = ids
 		for _, d := range defs {
@@ -458,6 +460,20 @@ func orderTrace(m *meta.Module, out map[string][]string) {
 		}
 	}
 	walk("", m.DataDefinitions())
+	for name, id := range m.Identities() {
+		if len(id.BaseIds()) > 1 {
+			var bs []string
+			for _, b := range id.Base() {
+				bs = append(bs, b.Ident())
+			}
+			out["idbase:"+name] = bs
+		}
+	}
+	var revs []string
+	for _, r := range m.RevisionHistory() {
+		revs = append(revs, r.Ident())
+	}
+	out["rev:"+m.Ident()] = revs
 	for name, a := range m.Actions() {
 		if a.Input() != nil {
 			walk(name+"/input", a.Input().DataDefinitions())
@@ -468,5 +484,92 @@ func orderTrace(m *meta.Module, out map[string][]string) {
 	}
 	for name, n := range m.Notifications() {
 		walk(name, n.DataDefinitions())
+	}
+}
+
+// listFacts records, keyed "<kind>:<ident>", the ordered member lists a
+// definition carries (enum and bit members, union member types, patterns,
+// musts, if-features, extension statements, unique, keys, leaf-list
+// defaults). Copies of one definition (a grouping used twice) must agree;
+// a disagreement is recorded as an extra member.
+func listFacts(d meta.Definition, out map[string][]string) {
+	put := func(kind string, vals []string) {
+		if len(vals) == 0 {
+			return
+		}
+		key := kind + ":" + d.Ident()
+		if old, ok := out[key]; ok {
+			if strings.Join(old, "\x00") != strings.Join(vals, "\x00") {
+				out[key] = append(old, "!another-copy-has:"+strings.Join(vals, ","))
+			}
+			return
+		}
+		out[key] = vals
+	}
+	if l, ok := d.(meta.Leafable); ok && l.Type() != nil {
+		t := l.Type()
+		var v []string
+		for _, e := range t.Enum() {
+			v = append(v, e.Label)
+		}
+		put("enum", v)
+		v = nil
+		for _, e := range t.Enums() {
+			v = append(v, e.Ident())
+		}
+		put("enums", v)
+		v = nil
+		for _, b := range t.Bits() {
+			v = append(v, b.Ident())
+		}
+		put("bits", v)
+		v = nil
+		for _, u := range t.Union() {
+			v = append(v, u.Ident())
+		}
+		put("union", v)
+		v = nil
+		for _, p := range t.Patterns() {
+			v = append(v, p.Pattern)
+		}
+		put("pattern", v)
+	}
+	if x, ok := d.(interface{ Musts() []*meta.Must }); ok {
+		var v []string
+		for _, m := range x.Musts() {
+			v = append(v, m.Expression())
+		}
+		put("must", v)
+	}
+	if x, ok := d.(interface{ IfFeatures() []*meta.IfFeature }); ok {
+		var v []string
+		for _, f := range x.IfFeatures() {
+			v = append(v, f.Expression())
+		}
+		put("iffeature", v)
+	}
+	if x, ok := d.(meta.HasExtensions); ok {
+		var v []string
+		for _, e := range x.Extensions() {
+			v = append(v, e.Ident()+" "+e.Argument())
+		}
+		put("ext", v)
+	}
+	if x, ok := d.(*meta.List); ok {
+		var v []string
+		for _, u := range x.Unique() {
+			v = append(v, strings.Join(u, " "))
+		}
+		put("unique", v)
+		v = nil
+		for _, k := range x.KeyMeta() {
+			v = append(v, k.Ident())
+		}
+		if len(v) > 1 {
+			put("key", v)
+		}
+	}
+	if x, ok := d.(*meta.LeafList); ok && x.HasDefault() {
+		put("default", x.Default())
 	}
 }
